@@ -103,10 +103,8 @@ struct Family {
    }
 };
 
-int main(int argc, char** argv)
+static void body(Ctx& C)
 {
-   auto& C = ctx();
-   C.parse(argc, argv);
    C.rule("a case = one subset of basic names (decomposition) or one pair of subsets (binary operations); exhaustive: all 2^18 "
           "specifier subsets and all 2^3 qualifier subsets for decompose(union)==subset, all singleton x subset pairs (18 x 2^18) "
           "and all 8 x 8 qualifier pairs for |,&,^,implies and the compound assignments; sampled: random subset pairs; plus the 17+3 "
@@ -173,6 +171,6 @@ int main(int argc, char** argv)
    if (C.worker == 0) { C.need("specifiers_unknown_names_refused"); C.need("qualifiers_unknown_names_refused"); }
    C.exhaustive(ok);   // the space named by the property: all subsets enumerated; pairs are sampled as the property states
    C.extra("exhaustive_subspaces", "\"decompose over all 2^18 + 2^3 subsets; binary operations over all 18 x 2^18 singleton-subset pairs and all 8 x 8 qualifier pairs; random pairs beyond that are sampled\"");
-   C.finish();
-   return 0;
 }
+
+int main(int argc, char** argv) { return guarded_main(argc, argv, body); }
